@@ -96,6 +96,17 @@ def run(ctx) -> Result:
     for kind in ("polling", "inotify"):
         kp = [op.gen_program(rng, kind=kind) for _ in range(60 if not ctx.thorough else 300)]
         op.campaign(ctx, res, "C06", kp, judge, n_random=2, do_lockstep=False, tag=kind)
+    # the watched directory disappears and stop()/unschedule() overtakes the reader (IN_IGNORED still unread)
+    gone = [
+        dict(nw=1, nh=1, kind="inotify", scripts={"0": []}, threads=[[["schedule", 0, 0], ["start"], ["rootgone", 0]]], cbs={},
+             settle=0),                                   # the only stop() is the final one, right after the directory went
+        dict(nw=1, nh=1, kind="inotify", scripts={"0": []}, threads=[[["schedule", 0, 0], ["start"], ["rootgone", 0], ["stop"]]], cbs={}),
+        dict(nw=1, nh=1, kind="inotify", scripts={"0": []}, threads=[[["schedule", 0, 0], ["start"], ["rootgone", 0], ["unschedule", 0]]],
+             cbs={}),
+        dict(nw=2, nh=1, kind="inotify", scripts={"0": [], "1": []},
+             threads=[[["schedule", 0, 0], ["schedule", 0, 1], ["start"], ["rootgone", 1]], [["pause"], ["unschedule_all"]]], cbs={}),
+    ]
+    op.campaign(ctx, res, "C06", gone, judge, explore_runs=120 if not ctx.thorough else 1500, do_lockstep=False, tag="gone")
     # every call order
     maxlen = 3 if not ctx.thorough else 4
     for from_cb in (False, True):
